@@ -146,13 +146,18 @@ func c12Run(body []ast.Stmt) error {
 func VerifC12ConformFlow() {
 	kind := verifChoice("kind", 7)
 	hot := 1 + verifChoice("hot", 3)
-	hot2 := 0
-	depth := 1
+	g := &c02Gen{hot: hot, depth: 1}
 	if verifBound(0, 1) == 1 {
-		depth = 2
-		hot2 = 1 + verifChoice("hot2", 3)
+		g.depth = 2
+		g.hot2 = 1 + verifChoice("hot2", 3)
+	} else if verifChoice("slice", 2) == 1 {
+		// quick tier, second slice: a loop nested in any body of a loop (break / continue / raise in
+		// any body of the inner loop, its else clause included)
+		verifAssume(kind == 1 || kind == 2)
+		g.depth = 2
+		g.hot2 = 1 + verifChoice("hot2", 3)
+		g.onlyLoops = true
 	}
-	g := &c02Gen{hot: hot, hot2: hot2, depth: depth}
 	prog := []ast.Stmt{g.probe(), g.compound(kind, false, 1), g.probe()}
 	vm.VReset(2)
 	_ = c12Run(prog)
